@@ -44,18 +44,31 @@ func (t *c16Tree) files(schemas []c16Schema) map[string]string {
 	return out
 }
 
-// genRaceTree16: a default-schema tree that exercises both code paths: kinds outside the precomputed
-// namespace table (IsNamespaceScoped falls through to the unlocked map read) and a strategic-merge patch
-// (SchemaForResourceType -> initSchema). size = number of extra resources: trees of different sizes reach
-// initSchema at different moments, which is what makes the unsynchronised accesses overlap.
-func genRaceTree16(g *Rng, explicitVersion bool, size int) *c16Tree {
+// genRaceTree16: a default-schema tree that exercises the shared state of a build:
+//   - kinds outside the precomputed namespace table (IsNamespaceScoped falls through to the unlocked map read);
+//   - a strategic-merge patch (SchemaForResourceType -> initSchema); with wantDeployment the patch is on a built-in
+//     kind whose containers list merges by key only when the built-in schema is actually loaded, so a build that
+//     sees a half-initialised schema produces a different output;
+//   - with cfgTag != "": a `configurations:` file adding custom field specs (unique paths per tree) for the CRD kinds,
+//     plus the directives that use them — every build then appends to its copy of the process-global default
+//     transformer configuration, so a shared backing array shows up as a race and as foreign field specs.
+//
+// size = number of extra resources: trees of different sizes reach initSchema at different moments.
+func genRaceTree16(g *Rng, explicitVersion bool, size int, cfgTag string, wantDeployment, builtinOnly bool) *c16Tree {
 	t := genTree16(g, 0, true)
+	if builtinOnly {
+		// only kinds of the precomputed namespace table: such a build never takes schemaLock before its first
+		// initSchema(), so nothing serialises it behind another build's schema initialisation
+		t = &c16Tree{Schema: -1, BaseSchema: -1, Namespace: g.Chance(85),
+			Res: []c16Res{{Kind: "ConfigMap", Name: "tc"}}}
+		wantDeployment = true
+	}
 	if !explicitVersion {
 		t.Ver, t.BaseVer = nil, nil
 	} else {
 		t.Ver = strp("v1.21.2")
 	}
-	hasCRD := false
+	hasCRD := builtinOnly
 	for _, r := range t.allRes() {
 		if r.Kind == "Foo" || r.Kind == "Bar" {
 			hasCRD = true
@@ -63,6 +76,10 @@ func genRaceTree16(g *Rng, explicitVersion bool, size int) *c16Tree {
 	}
 	if !hasCRD {
 		t.Res = append(t.Res, c16Res{Kind: g.Pick([]string{"Foo", "Bar"}), Name: "tx"})
+	}
+	if wantDeployment {
+		t.Res = append(t.Res, c16Res{Kind: "Deployment", Name: "td"})
+		t.Patches = append(t.Patches, "td")
 	}
 	if len(t.Patches) == 0 {
 		for _, r := range t.allRes() {
@@ -73,7 +90,43 @@ func genRaceTree16(g *Rng, explicitVersion bool, size int) *c16Tree {
 		}
 	}
 	for i := 0; i < size; i++ {
-		t.Res = append(t.Res, c16Res{Kind: g.Pick([]string{"ConfigMap", "Deployment", "Foo", "Bar", "Foo"}), Name: fmt.Sprintf("tz%d", i)})
+		kinds := []string{"ConfigMap", "Deployment", "Foo", "Bar", "Foo"}
+		if builtinOnly {
+			kinds = []string{"ConfigMap", "Deployment", "ConfigMap"}
+		}
+		t.Res = append(t.Res, c16Res{Kind: g.Pick(kinds), Name: fmt.Sprintf("tz%d", i)})
+	}
+	if cfgTag != "" {
+		kinds := []string{}
+		for _, k := range []string{"Foo", "Bar", "ConfigMap"} {
+			if (k == "ConfigMap") != builtinOnly {
+				continue
+			}
+			for _, r := range t.allRes() {
+				if r.Kind == k {
+					kinds = append(kinds, k)
+					break
+				}
+			}
+		}
+		dirs := []string{"namespace", "labels", "annotations", "prefix", "suffix", "images", "replicas"}
+		n := 1 + g.Intn(4)
+		used := map[string]bool{}
+		for i := 0; i < n; i++ {
+			d := g.Pick(dirs)
+			if i == 0 && g.Chance(50) {
+				d = "namespace"
+			}
+			k := g.Pick(kinds)
+			if used[d+k] {
+				continue
+			}
+			used[d+k] = true
+			t.Cfg = append(t.Cfg, c16CfgSpec{Dir: d, Kind: k, Field: fmt.Sprintf("%s%s%d", d[:2], cfgTag, i)})
+		}
+		if t.hasCfg("namespace") {
+			t.Namespace = true
+		}
 	}
 	return t
 }
@@ -180,7 +233,15 @@ func c16RaceClass(rep c16RaceReport, explicitVersion bool) string {
 func c16RaceBinary() (string, string, error) {
 	root := verifRoot()
 	bin := filepath.Join(root, ".build", "c16race")
-	cmd := exec.Command("go", "build", "-race", "-o", bin, "./c16race")
+	args := []string{"build", "-race", "-o", bin}
+	// a scratch copy of the repository (VERIF_REPO): ./check has written the module file with the redirected replaces
+	if repo := os.Getenv("VERIF_REPO"); repo != "" && repo != "/repo" {
+		alt := filepath.Join(root, ".build", "alt.go.mod")
+		if _, err := os.Stat(alt); err == nil {
+			args = append(args, "-modfile", alt)
+		}
+	}
+	cmd := exec.Command("go", append(args, "./c16race")...)
 	cmd.Dir = filepath.Join(root, "harness")
 	env := []string{}
 	for _, e := range os.Environ() {
@@ -277,26 +338,44 @@ func c16JobOf(spec c16RaceSpec) c16RaceJob {
 	return job
 }
 
-// c16GenRaceSpec: round 0 has the shape that makes the overlap likely (one small tree, the others large);
-// the following rounds are random mixes of 2..16 trees.
-func c16GenRaceSpec(g *Rng, rounds int, explicit bool) c16RaceSpec {
+// c16GenRaceSpec: one driver process.
+//
+//	round 0 runs in the COLD process (no reset, nothing has touched the schema yet): 6-10 small trees of the same
+//	        size, each with a patched built-in Deployment and (most) a custom transformer configuration — they reach
+//	        initSchema within the same few milliseconds;
+//	round 1 has the shape that makes the unlocked namespace-map read overlap with another build's initSchema:
+//	        one small tree, the others large;
+//	further rounds are random mixes of 2..16 trees.
+func c16GenRaceSpec(g *Rng, rounds int, explicit bool, tag string) c16RaceSpec {
 	spec := c16RaceSpec{}
 	for i := 0; i < rounds; i++ {
 		n := 2 + g.Intn(15)
 		rd := c16RaceSpecRound{GoMaxProcs: []int{2, 4, 8, 16}[g.Intn(4)], Repeat: 1 + g.Intn(2)}
-		if i == 0 {
+		switch i {
+		case 0:
+			n = 6 + g.Intn(5)
+			rd.GoMaxProcs = []int{8, 16}[g.Intn(2)]
+			rd.Repeat = 1
+		case 1:
 			n = 3 + g.Intn(4)
 			rd.GoMaxProcs = []int{4, 8, 16}[g.Intn(3)]
 			rd.Repeat = 1
 		}
 		for k := 0; k < n; k++ {
 			size := g.Intn(8)
-			if i == 0 && k > 0 {
+			switch {
+			case i == 0:
+				size = g.Intn(12)
+			case i == 1 && k > 0:
 				size = 20 + g.Intn(30)
-			} else if i > 0 && g.Chance(30) {
+			case i > 1 && g.Chance(30):
 				size = 10 + g.Intn(25)
 			}
-			rd.Trees = append(rd.Trees, genRaceTree16(g.Fork(), explicit && (k%2 == 1), size))
+			cfgTag := ""
+			if g.Chance(75) {
+				cfgTag = fmt.Sprintf("%sr%dk%d", tag, i, k)
+			}
+			rd.Trees = append(rd.Trees, genRaceTree16(g.Fork(), explicit && (k%2 == 1), size, cfgTag, g.Chance(50), i == 0))
 		}
 		spec.Rounds = append(spec.Rounds, rd)
 	}
@@ -392,13 +471,32 @@ func c16RaceSearch(r *Run, g *Rng, procs int, tier string) error {
 	r.Count("race_corpus_jobs", fmt.Sprint(len(specs)))
 	for p := 0; p < procs; p++ {
 		// the race detector reports a given pair of stacks once per process: many short processes
-		specs = append(specs, c16GenRaceSpec(g.Fork(), 2, p%3 == 2))
+		specs = append(specs, c16GenRaceSpec(g.Fork(), 2, p%3 == 2, fmt.Sprintf("p%d", p)))
 	}
 	for _, spec := range specs {
 		job := c16JobOf(spec)
-		for _, rd := range job.Rounds {
+		for ri, rd := range job.Rounds {
 			r.Count("race_round_trees", fmt.Sprint(len(rd.Trees)))
 			r.Count("race_round_gomaxprocs", fmt.Sprint(rd.GoMaxProcs))
+			for ti, a := range job.Alone[ri] {
+				switch {
+				case strings.HasPrefix(a, "ERR: "):
+					r.Count("race_tree_alone", "error")
+					if os.Getenv("VERIF_C16_DEBUG") != "" {
+						fmt.Fprintln(os.Stderr, "alone error:", a, spec.Rounds[ri].Trees[ti].Cfg)
+					}
+				case strings.HasPrefix(a, "PANIC: "):
+					r.Count("race_tree_alone", "panic")
+				default:
+					r.Count("race_tree_alone", "ok")
+				}
+				for _, c := range spec.Rounds[ri].Trees[ti].Cfg {
+					r.Count("race_tree_cfg", c.Dir)
+				}
+				if len(spec.Rounds[ri].Trees[ti].Cfg) == 0 {
+					r.Count("race_tree_cfg", "none")
+				}
+			}
 		}
 		outs, stderr, errText := c16RunRace(bin, job, 240*time.Second)
 		c16EvalRace(r, spec, job, outs, stderr, errText)
